@@ -107,7 +107,7 @@ def proof_side(prop):
         res['ok'] = False
         return res
     src = strip_coq_comments(open(pfile).read())
-    names = re.findall(r'\bTheorem\s+([A-Za-z0-9_\']+)', src)
+    names = re.findall(r'\b(?:Theorem|Example)\s+([A-Za-z0-9_\']+)', src)
     res['obligations'] = len(names)
     # the property file holds only Theorem / Proof. exact … Qed. / Print Assumptions
     body = re.sub(r'\s+', ' ', src)
@@ -149,7 +149,7 @@ def first_failed_theorem(out, pfile, names):
     ln = int(m.group(1))
     last = None
     for n, line in enumerate(open(pfile).read().split('\n'), 1):
-        mm = re.match(r'\s*Theorem\s+([A-Za-z0-9_\']+)', line)
+        mm = re.match(r'\s*(?:Theorem|Example)\s+([A-Za-z0-9_\']+)', line)
         if mm and n <= ln:
             last = mm.group(1)
     return last
